@@ -30,7 +30,7 @@ func init() { registry["C17"] = runC17 }
 var c17Alphabet = []rune{'a', 'z', '*', '?', '+', '[', ']', '-', '!', '\\', '/', '.', ' ', '~', '\n', 'é'}
 
 // extra symbols used only by the random families
-var c17Extra = []rune{'^', ':', '\t', '\r', '0', '9', 'A', 'Z', '_', '@', '{', '\'', '"', ',', '#', 'b', 'y', 'm', 0x01, 0x1f, 0x7f, '日', '😀', 'ß'}
+var c17Extra = []rune{'^', ':', '\t', '\r', '0', '9', 'A', 'Z', '_', '@', '{', '\'', '"', ',', '#', 'b', 'y', 'm', 0x01, 0x1f, 0x7f, '日', '😀', 'ß', 0x80, 0x85, 0x9f, 0xa0}
 
 const c17NoteSuffix = ". note: filter pattern syntax is explained at https://docs.github.com/en/actions/using-workflows/workflow-syntax-for-github-actions#filter-pattern-cheat-sheet"
 
@@ -389,7 +389,7 @@ var c17StyleNames = []string{"plain", "single", "double"}
 // c17StyleOK tells whether pattern p can be written in the style without any YAML escaping, folding
 // or re-interpretation, i.e. the scalar text in the file is the pattern, character by character.
 func c17StyleOK(p string, style int) bool {
-	if p == "" || strings.ContainsAny(p, "\n\r\t\x00\x01\x1f\x7f") {
+	if p == "" || strings.ContainsAny(p, "\n\r\t\x00\x01\x1f\x7f\u0080\u0085\u009f\u2028\u2029") {
 		return false
 	}
 	switch style {
